@@ -165,6 +165,7 @@ func (f *Frame) checkInvariants(li *loopInfo, kind string, phiVal func(*ssa.Phi)
 		return
 	}
 	env := f.specEnv(st, phiVal, phis)
+	f.bindNamesBefore(env, li.header)
 	for ci, c := range vc.contract.LoopInv[li.ordinal] {
 		for ji, cj := range conjuncts(c.Expr) {
 			g := env.evalBool(cj)
@@ -179,6 +180,7 @@ func (f *Frame) assumeInvariants(li *loopInfo, phis []*ssa.Phi, st *State) {
 		return
 	}
 	env := f.specEnv(st, func(p *ssa.Phi) Val { return f.vals[p] }, phis)
+	f.bindNamesBefore(env, li.header)
 	for _, c := range vc.contract.LoopInv[li.ordinal] {
 		f.assume(env.evalBool(c.Expr))
 	}
